@@ -421,6 +421,30 @@ func c19Shards(tier string) []mc.Shard {
 						fail("C19.proto-stream", "%s: streamed message %v differs from ToProto %v", c, &sm, m.ToProto())
 					}
 				}
+				// parameters must come back bit for bit, also for a mapping a few ulps away
+				// read right after this one (nothing may be remembered between calls)
+				g0, o0 := mapParams(m)
+				for _, r := range forms {
+					if g, o := mapParams(r); math.Float64bits(g) != math.Float64bits(g0) || math.Float64bits(o) != math.Float64bits(o0) {
+						fail("C19.bit-for-bit", "%s: base/offset %v/%v came back as %v/%v", c, g0, o0, g, o)
+					}
+				}
+				nbSpec := MapSpec{Kind: c.Kind, Gamma: math.Nextafter(math.Nextafter(g0, 2), 2), Offset: math.Nextafter(o0, math.Inf(1))}
+				nb := nbSpec.New()
+				var nbb []byte
+				nb.Encode(&nbb)
+				if fl, err := enc.DecodeFlag(&nbb); err == nil {
+					if d, err := mapping.Decode(&nbb, fl); err != nil {
+						fail("C19.binary", "%s: neighbour decode failed: %v", c, err)
+					} else if g, o := mapParams(d); g != nbSpec.Gamma || o != nbSpec.Offset {
+						fail("C19.bit-for-bit", "%s: a mapping a few ulps away (%v/%v), decoded right after it, came back as %v/%v", c, nbSpec.Gamma, nbSpec.Offset, g, o)
+					}
+				}
+				if d, err := mapping.FromProto(nb.ToProto()); err != nil {
+					fail("C19.proto", "%s: neighbour FromProto failed: %v", c, err)
+				} else if g, o := mapParams(d); g != nbSpec.Gamma || o != nbSpec.Offset {
+					fail("C19.bit-for-bit", "%s: a mapping a few ulps away (%v/%v), rebuilt from its message right after it, came back as %v/%v", c, nbSpec.Gamma, nbSpec.Offset, g, o)
+				}
 				for form, r := range forms {
 					if !m.Equals(r) || !r.Equals(m) {
 						fail("C19.equal-after-round-trip", "%s: the mapping read back from its %s form is not equal to the original", c, form)
